@@ -88,7 +88,7 @@
             }
         }
     }
-    fn mk_lz_data(buf_size: usize, ksa: u32) -> LZEncoderData {
+    pub(crate) fn mk_lz_data(buf_size: usize, ksa: u32) -> LZEncoderData {
         LZEncoderData { keep_size_before: 16, keep_size_after: ksa, match_len_max: 8, nice_len: 8, buf: alloc::vec![0u8; buf_size], buf_size,
             buf_limit_u16: buf_size - 2, read_pos: -1, read_limit: -1, finishing: false, write_pos: 0, pending_size: 0 }
     }
@@ -168,3 +168,27 @@
         if old > 0 && rp < rl2 { assert!(e.pending_size == pending_spec(rp, e.write_pos, old)); } else { assert!(e.pending_size == old); }
         crate::vcover!(old == 2 && e.pending_size == 0);
     }
+
+    // ---------------------------------------------------------------- C01.lze.preset: preset dictionary, encoder side
+    /// set_preset_dict primes the window with the LAST min(len, dict_size) bytes of the preset dictionary - the part the
+    /// decoder keeps (LZDecoder::new, C01.lzd.view) and the only part a match may refer to - and offers exactly those
+    /// positions to the match finder once.
+    fn lze_preset<const LEN: usize>() {
+        let preset: [u8; LEN] = vk::any();
+        let mut e = mk_lz_data(32, 6);
+        let mut mf = MfGhost { next: 0 };
+        let dict: u32 = 8;
+        e.set_preset_dict(dict, &preset, &mut mf);
+        let keep = if LEN < 8 { LEN } else { 8 };
+        assert!(e.write_pos == keep as i32);
+        let mut i = 0;
+        while i < 8 { if i < keep { assert!(e.buf[i] == preset[LEN - keep + i], "encoder window does not start with the tail of the preset dictionary"); } i += 1; }
+        assert!(e.read_pos == keep as i32 - 1);
+        assert!(mf.next == e.read_pos + 1 - e.pending_size as i32);
+    }
+    #[kani::proof]
+    #[kani::unwind(14)]
+    fn c01_lze_preset_short() { lze_preset::<5>(); }
+    #[kani::proof]
+    #[kani::unwind(14)]
+    fn c01_lze_preset_long() { lze_preset::<12>(); }
